@@ -22,6 +22,7 @@ type Answer struct {
 	HTTPStatus   int    // 0 = 200
 	Raw          []byte // if non-nil, the HTTP body is exactly this (hostile bodies)
 	NoLength     bool   // omit/garble the content-length header
+	LengthHeader string // if set, the content-length header carries exactly this value
 	TransportErr error  // fail the round trip
 }
 
@@ -79,7 +80,12 @@ func (s *Server) RoundTrip(req *http.Request) (*http.Response, error) {
 		return resp(req, a.HTTPStatus, []byte(fmt.Sprint("status ", a.HTTPStatus)), false), nil
 	}
 	if a.Raw != nil {
-		return resp(req, 200, a.Raw, a.NoLength), nil
+		rp := resp(req, 200, a.Raw, a.NoLength)
+		if a.LengthHeader != "" {
+			rp.Header.Set("content-length", a.LengthHeader)
+			rp.ContentLength = -1
+		}
+		return rp, nil
 	}
 	m := &dnsref.Msg{ID: q.ID, Flags: 0x8180 | uint16(a.RCode&0xf), Q: q.Q}
 	m.Sec[0] = a.Records
@@ -93,11 +99,14 @@ func (s *Server) RoundTrip(req *http.Request) (*http.Response, error) {
 func resp(req *http.Request, status int, body []byte, noLength bool) *http.Response {
 	h := http.Header{}
 	h.Set("content-type", "application/dns-message")
+	cl := int64(len(body))
 	if !noLength {
 		h.Set("content-length", strconv.Itoa(len(body)))
+	} else {
+		cl = -1
 	}
 	return &http.Response{StatusCode: status, Status: fmt.Sprintf("%d", status), Proto: "HTTP/1.1", ProtoMajor: 1, ProtoMinor: 1,
-		Header: h, Body: io.NopCloser(bytes.NewReader(body)), ContentLength: int64(len(body)), Request: req}
+		Header: h, Body: io.NopCloser(bytes.NewReader(body)), ContentLength: cl, Request: req}
 }
 
 // Mux routes requests to per-host servers, so that independent cases can run in
